@@ -1,2 +1,5 @@
+pub mod corpus;
+pub mod exprgen;
 pub mod run;
 pub mod srv;
+pub mod synt;
